@@ -47,9 +47,17 @@
 #include <thread>
 #include <vector>
 #include "rkcommon/utility/SaveImage.h"
+#ifndef C20_PUBLIC
 // The translation unit of the working tree itself: gives access to the file-static recorder
 // (to start every case from an empty recorder) and to the per-thread event list (chunk sizes).
 #include "rkcommon/tracing/Tracing.cpp"
+#else
+// Public-interface build (used when the one above does not compile against the tree): only Tracing.h, Tracing.cpp is linked as
+// it is.  The recorder cannot be reset: the check then runs ONE case per process; chunk sizes / clock values are not reported.
+#define RKCOMMON_ENABLE_PROFILING
+#include "rkcommon/tracing/Tracing.h"
+#include "rkcommon/common.h"
+#endif
 
 using namespace rkcommon;
 using namespace rkcommon::math;
@@ -212,6 +220,7 @@ static void runThread(ThreadScript *ts)
   }
   std::ostringstream s, tm;
   size_t mincap = (size_t)-1; bool first = true, firstT = true;
+#ifndef C20_PUBLIC
   if (tracing::threadEventList) {
     for (auto &c : tracing::threadEventList->events) {
       s << (first ? "" : ",") << c.size(); first = false;
@@ -223,6 +232,8 @@ static void runThread(ThreadScript *ts)
       }
     }
   }
+#endif
+  (void)firstT; (void)mincap;
   if (first) s << "-"; else s << "/" << mincap << "/" << tm.str();
   s << "#" << std::hash<std::thread::id>()(std::this_thread::get_id());
   ts->sizes = s.str();
@@ -248,8 +259,10 @@ static int mainTrace(const std::string &outdir)
       }
       else scripts.back().ops.push_back(tok);
     }
+#ifndef C20_PUBLIC
     if (n > 0) tracing::traceRecorder = rkcommon::make_unique<tracing::TraceRecorder>();   // empty recorder per case
     tracing::threadEventList = nullptr;                                                   // and no cached list on the main thread
+#endif
     std::string path = outdir + "/trace_" + std::to_string(n++) + ".json";
     // saves in the middle of the history: only for single-phase cases whose threads all have the same number of W
     int K = -1; bool sameK = !scripts.empty() && ph == 0;
@@ -321,8 +334,10 @@ static int mainRace(const std::string &outdir, int nthreads, int rounds)
 {
   const std::string path = outdir + "/race_" + std::to_string(nthreads) + ".json";
   for (int r = 0; r < rounds; ++r) {
+#ifndef C20_PUBLIC
     tracing::traceRecorder = rkcommon::make_unique<tracing::TraceRecorder>();
     tracing::threadEventList = nullptr;
+#endif
     { std::lock_guard<std::mutex> lk(g_barM); g_arrived = 0; }
     std::vector<std::thread> th;
     for (int k = 0; k < nthreads; ++k) th.emplace_back(raceWorker, r, k);
